@@ -3,12 +3,12 @@ package pongo2
 type tagCycleValue struct {
 	node  *tagCycleNode
 	value *Value
+	idx   *int // position of the cycle in the rendering the value was created in
 }
 
 type tagCycleNode struct {
 	position *Token
 	args     []IEvaluator
-	idx      int
 	asName   string
 	silent   bool
 }
@@ -32,8 +32,10 @@ func cycleOutput(ctx *ExecutionContext, expr IEvaluator, val *Value) (string, *E
 }
 
 func (node *tagCycleNode) Execute(ctx *ExecutionContext, writer TemplateWriter) *Error {
-	item := node.args[node.idx%len(node.args)]
-	node.idx++
+	// the position belongs to the current rendering, not to the compiled template
+	idx := ctx.stateFor(node, func() any { return new(int) }).(*int)
+	item := node.args[*idx%len(node.args)]
+	*idx++
 
 	val, err := item.Evaluate(ctx)
 	if err != nil {
@@ -45,8 +47,8 @@ func (node *tagCycleNode) Execute(ctx *ExecutionContext, writer TemplateWriter) 
 		// {% cycle cycleitem %}
 
 		// Update the cycle value with next value
-		item := t.node.args[t.node.idx%len(t.node.args)]
-		t.node.idx++
+		item := t.node.args[*t.idx%len(t.node.args)]
+		*t.idx++
 
 		val, err := item.Evaluate(ctx)
 		if err != nil {
@@ -68,6 +70,7 @@ func (node *tagCycleNode) Execute(ctx *ExecutionContext, writer TemplateWriter) 
 		cycleValue := &tagCycleValue{
 			node:  node,
 			value: val,
+			idx:   idx,
 		}
 
 		if node.asName != "" {
